@@ -85,12 +85,22 @@ where
     let x = C::make(0);
     let mut s = Sink::<64>::new();
     let n = match x.serialize(&mut s) { Ok(n) => n, Err(_) => { assert!(false, "HARNESS: serializes"); 0 } };
+    // the destination may already exist with older (longer or shorter) contents
+    #[cfg(kani)]
+    unsafe {
+        let old: usize = any();
+        assume(old <= FCAP);
+        OUT_FILE_LEN = old;
+        OUT_DATA = [0xEE; FCAP];
+        crate::cover!(old > 64, "destination pre-exists with longer contents");
+    }
     let r = x.store("out");
     assert!(r.is_ok(), "C08: store succeeds on a writable file");
     core::mem::forget(r);
     #[cfg(kani)]
     unsafe {
         assert!(OUT_LEN == n, "C08: store writes exactly as many bytes as serialize");
+        assert!(OUT_FILE_LEN == n, "C08: after store the file holds exactly the serialized bytes (no stale tail of an older file)");
         let k: usize = any();
         assume(k < n);
         assert!(OUT_DATA[k] == s.buf[k], "C08: store writes exactly the serialized bytes");
